@@ -360,6 +360,48 @@ pub fn literal_spelling_programs() -> Vec<String> {
     out
 }
 
+/// one name declared twice in one construct (struct literal, struct type, parameter list,
+/// destructuring, module) with values of different types: whichever declaration wins, the static type
+/// and the value must be those of the same one
+pub fn duplicate_name_programs() -> Vec<String> {
+    let pairs = [("1", "\"text\""), ("\"text\"", "1"), ("2.5", "[1]"), ("mut 1", "mut \"s\""), ("()", "(1, 2)"), ("1", "2")];
+    let mut out = vec![];
+    for (v, w) in pairs {
+        for text in [
+            format!("s := struct{{a := {v}, b := 2.5, a := {w}}}; s.a"),
+            format!("s := struct{{a := {v}, b := 2.5, a := {w}}}; x := s.a; (x, s)"),
+            format!("s := struct{{a := {v}, a := {w}, b := 0}}; [s.a, s.a]"),
+            format!("s := struct{{a := {v}, a := {v}, a := {w}}}; (s.a, s.a)"),
+            format!("k := mut 0; s := struct{{a := {{ k += 1; {v} }}, a := {{ k += 10; {w} }}}}; (s.a, *k)"),
+            format!("f := () -> any {{ return struct{{a := {v}, b := 2.5, a := {w}}}; }}; r := f(); r"),
+            format!("f := (p: any) -> any {{ s := struct{{a := {v}, n := p, a := {w}}}; return s.a; }}; f(0)"),
+            format!("f := (a: any, a: any) -> any {{ return a; }}; f({v}, {w})"),
+            format!("(a, a) := ({v}, {w}); a"),
+            format!("(a, b, a) := ({v}, 2.5, {w}); (a, b)"),
+            format!("t := ({v}, {w}); (a, a) := t; [a]"),
+            format!("m := mod {{ a := {v}; b := 2.5; a := {w}; }}; m.a"),
+            format!("m := mod {{ a := {v}; a := {w}; }}; (m.a, m)"),
+            format!("f := (p: any) -> any {{ m := mod {{ a := {v}; n := p; a := {w}; }}; return (m.a, m); }}; f(0)"),
+        ] {
+            out.push(text);
+        }
+    }
+    for text in [
+        "f := (a: int, a: string) -> any { return a; }; f(1, \"s\")",
+        "f := (a: int, a: string) -> string { return a; }; f(1, \"s\")",
+        "f := (a: int, a: string) -> int { return a; }; f(1, \"s\")",
+        "f := (s: struct{a: int, a: string}) -> any { return s.a; }; f(struct{a := \"s\"})",
+        "f := (s: struct{a: int, a: string}) -> any { return s.a; }; f(struct{a := 1})",
+        "f := (s: struct{a: int, a: string}) -> string { return s.a; }; f(struct{a := 1, a := \"s\"})",
+        "x: struct{a: int, a: string} = struct{a := 1}",
+        "if s: struct{a: int, a: string} = struct{a := \"s\"} { s.a } else { 0 }",
+        "if s: struct{a: int, a: string} = struct{a := 1} { s.a } else { 0 }",
+    ] {
+        out.push(text.to_string());
+    }
+    out
+}
+
 /// string literals of every spelling (well-formed and malformed escapes) in every position that takes
 /// a string, `import` included (the paths start with `scratch_`: nothing outside the scratch directory
 /// is named): each is accepted or rejected with an error value
